@@ -225,6 +225,11 @@ func drawMask(t *rapid.T) MaskCase {
 		c.Many = rapid.SampledFrom([]int{10, 15, 16, 24, 30, 31, 32, 33, 40, 63, 64, 65, 100, 127, 128, 129, 255, 256, 300, 1000}).Draw(t, "nmany")
 		c.ManyAt = rapid.IntRange(0, 8).Draw(t, "manyat")
 	}
+	// the pack carries the string behind a 16-bit length: a long filler together with many options is
+	// cut down (by construction, not by rejection) until the whole string fits
+	for c.Pad > 0 && len(c.dbc()) > 65535 {
+		c.Pad /= 2
+	}
 	if rapid.IntRange(0, 3).Draw(t, "longsql") == 0 {
 		c.SqlLen = rapid.SampledFrom([]int{100, 4096, 32767, 32768, 40000, 65535}).Draw(t, "sqllen")
 	}
